@@ -1,0 +1,41 @@
+//go:build verif
+
+package graphql
+
+import "sync/atomic"
+
+// Step counters for the verification harness (build tag `verif`): planning and validation
+// work is counted at the sites that dominate its cost, so that growth can be measured
+// without a clock. Without the tag verifStep is an empty function.
+
+// Counter sites.
+const (
+	VerifSiteCollectSelection = iota // plan.go collectInto, per selection visited
+	VerifSitePlanMerged              // plan.go planMergedSelectionsForType, per call
+	VerifSiteAbstractPlanned         // plan.go abstractAlternative, per newly planned runtime type
+	VerifSiteFindConflict            // overlapping fields: per field pair compared
+	VerifSiteFieldsVsFragment        // overlapping fields: fields/fragment pair, after the memo test
+	VerifSiteFragmentVsFragment      // overlapping fields: fragment pair, after the memo test
+	VerifSiteFieldsCollected         // overlapping fields: getFieldsAndFragmentNames cache miss
+	verifSites
+)
+
+var verifSteps [verifSites]uint64
+
+func verifStep(site int) { atomic.AddUint64(&verifSteps[site], 1) }
+
+// VerifSteps returns a snapshot of the step counters.
+func VerifSteps() [verifSites]uint64 {
+	var out [verifSites]uint64
+	for i := range out {
+		out[i] = atomic.LoadUint64(&verifSteps[i])
+	}
+	return out
+}
+
+// VerifResetSteps zeroes the step counters.
+func VerifResetSteps() {
+	for i := range verifSteps {
+		atomic.StoreUint64(&verifSteps[i], 0)
+	}
+}
